@@ -19,10 +19,11 @@ import facto_ast as fa
 
 
 def range_values(a, b, s):
-    """the documented iteration sequence: a, a+s, ... strictly before b in the direction of s;
-    default step +1 if a < b else -1 (this is `is_range` of coq/Proofs/ForIterProofs.v)"""
+    """the documented iteration sequence: a, a+s, ... strictly before b in the direction of s
+    (this is `is_range` of coq/Proofs/ForIterProofs.v); the documented default step is 1, so a
+    descending range without an explicit step is empty"""
     if s is None:
-        s = 1 if a < b else -1
+        s = 1  # LANGUAGE_SPEC: "step: Optional increment/decrement (default: 1)"; the parser supplies 1
     out = []
     if s == 0:
         return out
@@ -38,6 +39,8 @@ def pp_expr(e, ctx=0):
     k = e[0]
     if k == "ref":
         return e[1]
+    if k == "read":
+        return f"{e[1]}.read()"
     if k == "call":
         return f"{e[1]}(" + ", ".join(pp_expr(a) for a in e[2]) + ")"
     # reuse the flat printer by temporarily mapping refs to names
@@ -54,7 +57,7 @@ def _to_named(e):
         return e
     if e[0] == "ref":
         return ("var", e[1])
-    if e[0] == "call":
+    if e[0] in ("call", "read"):
         return ("var", pp_expr(e))
     return tuple(_to_named(x) for x in e)
 
@@ -84,6 +87,13 @@ def pp_stmts(stmts, ind=""):
             out.extend(pp_stmts(s[3], ind + "    "))
             out.append(f"{ind}    return {pp_expr(s[4])};")
             out.append(f"{ind}}}")
+        elif k == "mem":
+            out.append(f'{ind}Memory {s[1]}: "{s[2]}";')
+        elif k == "write":
+            if s[3] is None:
+                out.append(f"{ind}{s[1]}.write({pp_expr(s[2])});")
+            else:
+                out.append(f"{ind}{s[1]}.write({pp_expr(s[2])}, when={pp_expr(s[3])});")
         elif k == "place":
             props = ""
             if s[5]:
@@ -109,6 +119,7 @@ class Elab:
         self.entities = []  # dict(name, proto, x, y, props, enable: flat expr|None)
         self.counter = 0
         self.toplevel = set()
+        self.mems = {}  # name -> dict(sig, iw, ih, im, data, when, unconditional)
 
     def lookup(self, n):
         for sc in reversed(self.scopes):
@@ -129,6 +140,8 @@ class Elab:
             return self.lookup(e[1])
         if k == "call":
             return self.call(e[1], e[2])
+        if k == "read":
+            return ("var", self.lookup(e[1])[1]["im"])
         if k == "int":
             return e
         return tuple(self.expr(x) if isinstance(x, tuple) else x for x in e)
@@ -180,6 +193,22 @@ class Elab:
                     self.scopes.pop()
             elif k == "func":
                 self.funcs[s[1]] = (s[2], s[3], s[4])
+            elif k == "mem":
+                # the cell's content enters the specification as two state variables (the outputs of
+                # its two state-holding combinators) whose sum is what a read sees
+                n = s[1]
+                self.flat.append(("in", f"_mw_{n}", s[2], 0))
+                iw = len(self.flat) - 1
+                self.flat.append(("in", f"_mh_{n}", s[2], 0))
+                ih = len(self.flat) - 1
+                self.flat.append(("sig", f"_m_{n}", ("bin", "+", ("var", iw), ("var", ih))))
+                m = {"name": n, "sig": s[2], "iw": iw, "ih": ih, "im": len(self.flat) - 1, "data": None, "when": None}
+                self.mems[n] = m
+                self.scopes[-1][n] = ("mem", m)
+            elif k == "write":
+                m = self.lookup(s[1])[1]
+                m["data"] = self.expr(s[2])
+                m["when"] = self.expr(s[3]) if s[3] is not None else None
             elif k == "place":
                 x = self.const_value(self.expr(s[3]))
                 y = self.const_value(self.expr(s[4]))
